@@ -156,6 +156,7 @@ type plantedKey struct{}
 type frontAPI interface {
 	Get(ctx context.Context, key []byte, b func(context.Context) (Tok, error)) (tok Tok, isNil bool, weird string, err error)
 	KeyLocks() int
+	WalkFail()      // a Walk over the backend whose callback gives up at the first entry (a dump to a broken writer)
 	ErrorsCleanup() // one cleanup cycle of the internal failure cache (what its janitor does periodically)
 	SeedFailure(ctx context.Context, key []byte, err error)
 	Preload(ctx context.Context, key []byte, v Tok)
@@ -181,6 +182,7 @@ type fh struct {
 	stats     map[string]float64
 	nfault    int
 	ttlChain  bool
+	walkFail  bool              // before the Gets start somebody walks the backend and gives up at the first entry (tag "walkfail")
 	slowBuild bool              // every build lets UpdateTTL+1s of virtual time pass before it returns (tag "slow")
 	ttlCalls  []ttlCall         // WithTTL calls the builder performs (C06)
 	ctxs      []context.Context // caller contexts of the Gets, in get-end order
@@ -384,6 +386,10 @@ func (f *frontF) Get(ctx context.Context, key []byte, b func(context.Context) (T
 
 func (f *frontF) KeyLocks() int { return f.f.VerifKeyLocks() }
 
+func (f *frontF) WalkFail() {
+	_, _ = walkerOf(f.inner).Walk(func(e cache.Entry) error { return errWalkStop })
+}
+
 func (f *frontF) ErrorsCleanup() {
 	if f.f.Errors != nil {
 		f.f.Errors.VerifCleanup()
@@ -519,6 +525,10 @@ func (f *frontFO) Get(ctx context.Context, key []byte, b func(context.Context) (
 
 func (f *frontFO) KeyLocks() int { return f.f.VerifKeyLocks() }
 
+func (f *frontFO) WalkFail() {
+	_, _ = f.inner.Walk(func(e cache.EntryOf[Tok]) error { return errWalkStop })
+}
+
 func (f *frontFO) ErrorsCleanup() {
 	if f.f.Errors != nil {
 		f.f.Errors.VerifCleanup()
@@ -609,6 +619,8 @@ func (f *frontFA) Get(ctx context.Context, key []byte, b func(context.Context) (
 }
 
 func (f *frontFA) KeyLocks() int { return f.f.VerifKeyLocks() }
+
+func (f *frontFA) WalkFail() { (&frontF{inner: f.inner}).WalkFail() }
 
 func (f *frontFA) ErrorsCleanup() {
 	if f.f.Errors != nil {
@@ -704,6 +716,10 @@ func newFH(cfg FCfg) *fh {
 		if t == "slow" {
 			h.slowBuild = true
 		}
+
+		if t == "walkfail" {
+			h.walkFail = true
+		}
 	}
 
 	bcfg.Stats = st
@@ -749,6 +765,10 @@ func newFH(cfg FCfg) *fh {
 		if cfg.FailC[i] == '1' {
 			h.front.SeedFailure(bg, h.keys[i], &TokErr{K: h.names[i], N: -1})
 		}
+	}
+
+	if h.walkFail {
+		h.front.WalkFail()
 	}
 
 	return h
@@ -962,7 +982,12 @@ func (h *fh) runGet(op GOp, buf []byte) {
 		h.viol = append(h.viol, "fabricated: "+weird)
 	}
 
-	h.ev(FEv{Kind: "get-end", Key: op.Key, Tok: t, Nil: isNil, Err: err, TTL: cache.TTL(ctx)})
+	endName := ""
+	if op.Skip {
+		endName = "skip"
+	}
+
+	h.ev(FEv{Kind: "get-end", Key: op.Key, Tok: t, Nil: isNil, Err: err, TTL: cache.TTL(ctx), Name: endName})
 	h.ctxs = append(h.ctxs, ctx)
 
 	if op.Mut {
